@@ -192,6 +192,19 @@ def run_case(c, rec, backends):
             which = [n for n, a, b in zip(("x", "w", "starts", "y", "Q"), fps, fps2) if a != b]
             rec.violation(f"{be}:input-modified", f"kernel wrote to its input buffer(s) {which}")
         rec.count(f"compared[{be}]")
+        if cross and be != "cuda" and c["seed"][-1] % 4 == 0 and c["rec"] not in ("huge",):
+            # the very same array object passed as both channels (a caller computing an
+            # auto-spectrum through the cross kernel): X = Y, nothing may be applied twice
+            try:
+                g2 = tuple(float(v) for v in call_kernel(f, xv, xv, sv, L, wv, om, Qv, cross, order))
+                bad2, _w2 = refmodel.compare_stats(g2, refmodel.ref_stats(x, x, st, L, w, om, order))
+                rec.count("same_object_as_both_channels")
+                for nm, err, bound in bad2[:1]:
+                    rec.violation(f"{be}:same-array-as-both-channels",
+                                  f"x passed as both channels (same object), order {order}, L={L}, "
+                                  f"K={len(st)}: {nm} err {err:.3e} > budget {bound:.3e}")
+            except Exception as e:
+                rec.violation(f"{be}:raises", f"same array as both channels: {type(e).__name__}: {e}")
         if c["rec"] not in ("huge",) and guard.poisoned(got):
             rec.violation(f"{be}:redzone-read",
                           f"result {got} carries the red-zone poison / is non-finite: a read "
